@@ -618,6 +618,17 @@ pub fn run_check(check: &dyn Check, tier: Tier, seed: u64, runs_override: Option
             minimise(check, choices, v, &known_keys, 25.0)
         };
         let path = write_replay(check, seed, *i, &min_choices, &min_v, choices.len(), &known_keys);
+        if choices.is_empty() && *i != u64::MAX {
+            // The run unwound before its decisions could be handed back (a
+            // panic on a scheduler-managed thread): replay by seed and run
+            // index instead, the decisions are regenerated.
+            if let Ok(text) = std::fs::read_to_string(&path) {
+                if let Ok(mut doc) = serde_json::from_str::<Value>(&text) {
+                    doc["regenerate"] = json!({"seed": seed, "run": i});
+                    let _ = std::fs::write(&path, serde_json::to_string_pretty(&doc).unwrap());
+                }
+            }
+        }
         let confirmed = if *i == u64::MAX {
             true
         } else {
